@@ -4,12 +4,40 @@ NOTES = ('All checks explore the real implementation in /repo (working tree) exh
          'models (vt/ref). VERIF_SEED only rotates non-boundary members of value alphabets; structures are enumerated completely for every seed. '
          'Genuine defects found are fixed in /repo by "fix:" commits or listed in known_findings.json.')
 ENGINES = [
-    {'name': 'E-enum', 'path': 'vt/astgen.py, vt/par.py, vt/ref/', 'serves_properties': ['C01', 'C02', 'C03', 'C11'],
+    {'name': 'E-enum', 'path': 'vt/astgen.py, vt/par.py, vt/ref/', 'serves_properties': ['C01', 'C02', 'C03', 'C11', 'C15', 'C18'],
      'kind_free_text': 'bounded-exhaustive program x data enumerator: all well-typed statements of bounded shape over the live registries x all tables/ledgers of bounded size over a value alphabet, executed on the real implementation and compared with a reference interpreter'},
-    {'name': 'E-bfs', 'path': 'vt/explore/bfs.py', 'serves_properties': ['C10'],
+    {'name': 'E-bfs', 'path': 'vt/explore/bfs.py', 'serves_properties': ['C10', 'C19'],
      'kind_free_text': 'explicit-state breadth-first search over operation histories on the product (real object, reference model) with canonical-state deduplication and closure detection'},
 ]
 CHECKS = {
+    'C15': {
+        'engine': 'E-enum',
+        'technique': 'bounded-exhaustive enumeration of all small tables x all pivot layouts against a reference reshaping, with un-pivot round trip',
+        'design_ref': 'DESIGN.md section 4, C15',
+        'text': 'ALL tables of <= 3 rows over a 12-letter and <= 2 rows over a 27-letter (r, k, v) alphabet (thorough: <= 4 / <= 3) x ALL 240 layouts: every permutation of [r, k, agg] and '
+                '[r, k, agg1, agg2] target lists for four aggregate sets, PIVOT BY by names and by positions, in both pivot orders. Names, datatypes and every cell are compared with the reshaping '
+                'of the reference un-pivoted result, the real result is un-pivoted back and compared with it, and eight kinds of invalid PIVOT BY references must be rejected at compile time.',
+        'note': 'Trusted: vt/ref/select.py for the un-pivoted result. NULL pivot keys are excluded (ordering unspecified).',
+    },
+    'C18': {
+        'engine': 'E-enum',
+        'technique': 'exhaustive enumeration of argument domains (every date 1900-2100, bounded strings/decimals/accounts/cast inputs) evaluated through real queries against stdlib-calendar reference laws',
+        'design_ref': 'DESIGN.md section 4, C18',
+        'text': 'All 73,414 dates 1900-2100 x 7 truncation units and 13 part fields and day-stride date_bin; month/year-stride date_bin within +-5 (quick) / +-30 years of 3 origins; date_add/date_diff/'
+                'date+-int with n in -400..400 on month/leap boundaries; interval arithmetic with day clipping; all account names of 1..5 components over 5 roots; all strings of length <= 3 over 4 '
+                'letters x all index/width arguments in -4..4; decimals m*10^e; casts x inputs of every type (NaN, Infinity, invalid dates); every cell compared with vt/ref/dates.py and slice/regex/decimal definitions.',
+        'note': 'Trusted: stdlib calendar/datetime/decimal/re; vt/ref/dates.py (self-tested against other stdlib code on every run). Zero/negative strides, out-of-range indexes, maxwidth < 5, today() are outside.',
+    },
+    'C19': {
+        'engine': 'E-bfs',
+        'technique': 'explicit-state BFS over the shell settings store on the product (real BQLShell, reference settings model) to closure, plus exhaustive CLI option product',
+        'design_ref': 'DESIGN.md section 4, C19',
+        'text': 'The product (real batch-mode BQLShell settings by value, model) closes at 768 states (2^7 booleans x 2 formats x 3 nullvalues); in EVERY state 101 events (all assignment spellings, invalid '
+                'values, unknown names incl. attributes of the settings object, wrong arity, legacy commands, unknown commands, .tables/.describe/.run) are executed on the real shell and compared with the '
+                'model (output, state unchanged on error, successors inside the closed set); statements / .run / .explain are compared with the renderers called directly in the 55 states near the default '
+                '(quick) or all 768 (thorough); the CLI entry point is run for all 128 combinations of -f x -m x -o x -q x ledger {clean, with errors} x spellings.',
+        'note': 'Trusted: renderers, numberify and Connection.execute are the yardstick (the property compares the shell with them). Interactive mode, pager, readline are outside. Default CLOSE date is only claimed for SELECT with a FROM clause.',
+    },
     'C01': {
         'engine': 'E-enum',
         'technique': 'bounded-exhaustive enumeration of typed expression trees x full operand-value product tables against a reference three-valued evaluator',
